@@ -18,6 +18,7 @@ import (
 	"sort"
 	"strings"
 	"time"
+	"unicode/utf8"
 
 	"reduction.dev/reduction/dkv/bloom"
 	"reduction.dev/reduction/dkv/kv"
@@ -254,12 +255,12 @@ func genTab(r *hx.Rand, n int, deep bool) *hx.Case {
 // a large run whose bloom filter is dense enough for false positives; lookups for them are derived in Execute
 func genBig(r *hx.Rand, n int, split bool) *hx.Case {
 	step := r.Range(1, 4)
-	target := 0
+	params := map[string]any{"mode": "c17", "kind": "tab", "target": 0, "deep": false, "fp": true, "dense": n, "dense_step": step}
 	if split {
-		target = n*25/2 + r.Range(0, 40) // about two tables
+		params["dense_split"] = 2
 	}
-	ops := []json.RawMessage{hx.Op(op{Op: "scan", K: []byte("m0001")}), hx.Op(op{Op: "get", K: []byte("m00000")}), hx.Op(op{Op: "get", K: []byte("m")})}
-	return &hx.Case{Name: "big", Params: map[string]any{"mode": "c17", "kind": "tab", "target": target, "deep": false, "fp": true, "dense": n, "dense_step": step}, Ops: ops}
+	ops := []json.RawMessage{hx.Op(op{Op: "scan", K: []byte("m0001")}), hx.Op(op{Op: "get", K: []byte("m00000a")}), hx.Op(op{Op: "get", K: []byte("m")})}
+	return &hx.Case{Name: "big", Params: params, Ops: ops}
 }
 
 func genWal(r *hx.Rand, deep bool) *hx.Case {
@@ -312,11 +313,11 @@ func genWal(r *hx.Rand, deep bool) *hx.Case {
 }
 
 func (eng) Generate(mode, tier string, r *hx.Rand) []*hx.Case {
-	var cs []*hx.Case
 	nTab, nMid, nBig, nWal := 84, 5, 1, 130
 	if tier == "thorough" {
 		nTab, nMid, nBig, nWal = 600, 40, 3, 1000
 	}
+	var heavy, tabs, wals []*hx.Case
 	forced := []int{0, 1, 2, 15, 16, 17, 31, 32, 33, 47, 48, 49, 64, 65}
 	for i := 0; i < nTab; i++ {
 		n := r.Range(0, 40)
@@ -325,17 +326,33 @@ func (eng) Generate(mode, tier string, r *hx.Rand) []*hx.Case {
 		} else if r.Chance(1, 5) {
 			n = r.Range(40, 70)
 		}
-		cs = append(cs, genTab(r.Fork(), n, i < 2*len(forced) || i%3 != 2))
+		tabs = append(tabs, genTab(r.Fork(), n, i < 2*len(forced) || i%3 != 2))
 	}
 	for i := 0; i < nMid; i++ {
-		cs = append(cs, genTab(r.Fork(), r.Range(70, 220), false))
+		heavy = append(heavy, genTab(r.Fork(), r.Range(70, 220), false))
 	}
 	for i := 0; i < nBig; i++ {
-		cs = append(cs, genBig(r.Fork(), 2300+r.Intn(300), false))
-		cs = append(cs, genBig(r.Fork(), 4200+r.Intn(300), true))
+		heavy = append(heavy, genBig(r.Fork(), 2300+r.Intn(200), false))
+		heavy = append(heavy, genBig(r.Fork(), 2800+r.Intn(200), true))
 	}
 	for i := 0; i < nWal; i++ {
-		cs = append(cs, genWal(r.Fork(), i%3 != 2))
+		wals = append(wals, genWal(r.Fork(), i%3 != 2))
+	}
+	// The Coq side evaluates shards of consecutive cases in parallel: deal the cases into buckets of about one shard
+	// so that the expensive ones (dense, mid-size, deep) are spread evenly.
+	total := len(heavy) + len(tabs) + len(wals)
+	k := (total + 19) / 20
+	buckets := make([][]*hx.Case, k)
+	j := 0
+	for _, group := range [][]*hx.Case{heavy, tabs, wals} {
+		for _, c := range group {
+			buckets[j%k] = append(buckets[j%k], c)
+			j++
+		}
+	}
+	var cs []*hx.Case
+	for _, b := range buckets {
+		cs = append(cs, b...)
 	}
 	return cs
 }
@@ -362,7 +379,7 @@ func pBool(c *hx.Case, name string) bool { b, _ := c.Params[name].(bool); return
 // allocating), so the remaining cases are not run.
 var hung bool
 
-const caseDeadline = 30 * time.Second
+const caseDeadline = 60 * time.Second
 
 func (e eng) Execute(mode string, c *hx.Case) (*hx.Result, error) {
 	if hung {
@@ -475,16 +492,23 @@ func execTab(c *hx.Case, ops []op) (*hx.Result, error) {
 			step = 1
 		}
 		for i := 0; i < n; i++ {
-			e := &ent{k: []byte(fmt.Sprintf("m%05d", i*step)), v: []byte{}, seq: uint64(i + 1), del: i%9 == 4}
+			e := &ent{k: []byte(fmt.Sprintf("m%05d%c", i*step, 'a'+i%26)), v: []byte{}, seq: uint64(i + 1), del: i%9 == 4}
 			if i%5 == 0 {
 				e.v = []byte{byte(i), byte(i >> 8)}
 			}
 			if i == n/20 || i == n/3 || i == 2*n/3 { // pushes later entries beyond offset 65536
-				e.v = make([]byte, 9000)
+				e.v = make([]byte, 14000)
 				e.del = false
 			}
 			es = append(es, e)
 		}
+	}
+	if k := pInt(c, "dense_split"); k > 0 { // target for about k tables
+		total := uint64(0)
+		for _, e := range es {
+			total += uint64(17 + len(e.k) + len(e.v))
+		}
+		target = total/k + 40
 	}
 	// the run must be strictly key-sorted (the shrinker may delete entries, never reorder them; be safe anyway)
 	sort.SliceStable(es, func(i, j int) bool { return bytes.Compare(es[i].k, es[j].k) < 0 })
@@ -517,16 +541,44 @@ func execTab(c *hx.Case, ops []op) (*hx.Result, error) {
 	if target == 0 {
 		tags = append(tags, "write-whole")
 	}
+	// Re-opening goes the way a restore does: every Document is stored with encoding/json (the checkpoint file of
+	// dkv/recovery: {"checkpoints":[{"levels":[[TableDocument...]]}]}) and read back before NewTableFromDocument.
+	type ckptDoc struct {
+		Levels [][]sst.TableDocument `json:"levels"`
+	}
+	type ckptListDoc struct {
+		Checkpoints []ckptDoc `json:"checkpoints"`
+	}
+	docs := make([]sst.TableDocument, len(tables))
+	for i, t := range tables {
+		docs[i] = t.Document()
+	}
+	data, err := json.Marshal(ckptListDoc{Checkpoints: []ckptDoc{{Levels: [][]sst.TableDocument{docs}}}})
+	if err != nil {
+		return nil, fmt.Errorf("json.Marshal of the documents: %v", err)
+	}
+	var back ckptListDoc
+	if err := json.Unmarshal(data, &back); err != nil {
+		return nil, fmt.Errorf("json.Unmarshal of the documents: %v", err)
+	}
+	if len(back.Checkpoints) != 1 || len(back.Checkpoints[0].Levels) != 1 || len(back.Checkpoints[0].Levels[0]) != len(tables) {
+		return nil, fmt.Errorf("documents lost in the JSON round trip")
+	}
+	rdocs := back.Checkpoints[0].Levels[0]
 	reopened := make([]*sst.Table, len(tables))
 	var otabs []string
 	type rng struct{ start, end []byte }
 	var ranges []rng
 	var tableKeys [][][]byte
 	for i, t := range tables {
-		d := t.Document()
-		reopened[i] = sst.NewTableFromDocument(fs, neverOwns{}, d)
+		d := docs[i]
+		reopened[i] = sst.NewTableFromDocument(fs, neverOwns{}, rdocs[i])
+		rd := reopened[i].Document()
 		sc, scFail := safeScan(t, nil)
-		rsc, rscFail := safeScan(sst.NewTableFromDocument(fs, neverOwns{}, d), nil)
+		rsc, rscFail := safeScan(sst.NewTableFromDocument(fs, neverOwns{}, rdocs[i]), nil)
+		if nonUTF8(d.StartKey) || nonUTF8(d.EndKey) {
+			tags = appendOnce(tags, "range-key-not-utf8")
+		}
 		cks := uint64(0)
 		if deep && (i < 2 || i == len(tables)-1) { // raw bytes of at most three tables per case, as a checksum
 			f := fs.Open(d.URI)
@@ -537,8 +589,9 @@ func execTab(c *hx.Case, ops []op) (*hx.Result, error) {
 			cks = cksum(raw)
 		}
 		otabs = append(otabs, shared2(coqOptEntries(sc, scFail), coqOptEntries(rsc, rscFail), func(a, b string) string {
-			return fmt.Sprintf("mkOT (mkD %s %s %d %d %d %d) %s %s %d",
-				hx.CoqBytes([]byte(d.StartKey)), hx.CoqBytes([]byte(d.EndKey)), d.EntriesSize, d.Size, d.StartSeqNum, d.EndSeqNum, a, b, cks)
+			return fmt.Sprintf("mkOT (mkD %s %s %d %d %d %d) (mkD %s %s %d %d %d %d) %s %s %d",
+				hx.CoqBytes([]byte(d.StartKey)), hx.CoqBytes([]byte(d.EndKey)), d.EntriesSize, d.Size, d.StartSeqNum, d.EndSeqNum,
+				hx.CoqBytes([]byte(rd.StartKey)), hx.CoqBytes([]byte(rd.EndKey)), rd.EntriesSize, rd.Size, rd.StartSeqNum, rd.EndSeqNum, a, b, cks)
 		}))
 		ranges = append(ranges, rng{[]byte(d.StartKey), []byte(d.EndKey)})
 		// keys of this table (for bloom replicas): by range over the input
@@ -587,7 +640,7 @@ func execTab(c *hx.Case, ops []op) (*hx.Result, error) {
 					tags = append(tags, "bloom-fp-"+class)
 				}
 			}
-			for i := 0; i < 9000; i++ {
+			for i := 0; i < 40000; i++ {
 				try("before-first", []byte(fmt.Sprintf("a%d", i)))
 				try("after-last", []byte(fmt.Sprintf("z%d", i)))
 				if len(tableKeys[ti]) > 0 {
@@ -634,7 +687,8 @@ func execTab(c *hx.Case, ops []op) (*hx.Result, error) {
 		fr := safeGet(tables[g.t], g.k)
 		rr := safeGet(reopened[g.t], g.k)
 		lks = append(lks, shared2(fr.term, rr.term, func(a, b string) string {
-			return fmt.Sprintf("mkL %d %s %s %s", g.t, hx.CoqBytes(g.k), a, b)
+			return fmt.Sprintf("mkL %d %s %s %s %s %s", g.t, hx.CoqBytes(g.k), a, b,
+				hx.CoqBool(tables[g.t].RangeContainsKey(g.k)), hx.CoqBool(reopened[g.t].RangeContainsKey(g.k)))
 		}))
 		class := "absent-between"
 		rg := ranges[g.t]
@@ -836,6 +890,8 @@ func safeReadAll(fs storage.FileSystem, h wal.Handle) (term string, tag string) 
 }
 
 // ---------- helpers ----------
+
+func nonUTF8[T ~string | ~[]byte](k T) bool { return !utf8.Valid([]byte(k)) }
 
 // shared2 prints a constructor application with two (usually identical) large arguments; identical arguments are
 // bound once by a let so that the term is loaded once.
